@@ -16,9 +16,11 @@ R1  starting-point attribution: the altitude / time cells returned by the share
     altitude / time / each state variable are the way-points on that side of
     element k plus ONE inserted point whose value is a plain copy of element k
     (the crossing segment's start) — an inserted value computed any other way
-    (element k+1, an interpolation, ...) is reported as such — and the inserted
-    longitude is ±π on the side the path is on (decided by evaluating it for
-    both crossing signs, through helpers with early returns).
+    (element k+1, an interpolation, ...) is reported as such, except for the
+    altitude / time / state value of the point that ENDS the first part, which
+    starts no segment and is dropped by [:-1] — and the inserted longitude is ±π
+    on the side the path is on (decided by evaluating it for both crossing
+    signs, through helpers with early returns).
 R2  matching lengths: latitude / longitude cells are the intersection's own
     index array of that axis with the NaN padding masked out (a following
     flatten is the identity); altitude, time, state and integrated outputs are
@@ -41,9 +43,12 @@ R5  ordering direction: the rows of intersection coordinates sorted descending
 R6  the latitude and longitude halves of the horizontal intersection are mirror
     images of each other, up to a consistent one-to-one renaming of temporaries
     (whose own statements must then mirror each other too).
-R7  every guarded division (np.divide(where=) or np.where(mask, a / b, dflt)) is
-    guarded exactly on its denominator: the mask, wherever it is built, closes
-    to `denominator != 0`; a tolerance / one-sided test is reported.
+R7  every guarded division (np.divide(where=) or np.where with the quotient in
+    either arm) is guarded exactly on its denominator: the mask, wherever it is
+    built, closes to `denominator != 0` or has the same truth table on every
+    kind of element (c04.guard_verdict); a tolerance / one-sided test / extra
+    test of the numerator (unless the default is zero, where it changes
+    nothing) / looser mask is reported.
 R8  look-up provenance: the four index helpers return, and the intersection's
     cell-index arrays are built as [start cell | midpoint cells | end cell] from,
     `np.searchsorted(<grid's own axis of that role>, coordinates) − 1` on the
@@ -337,6 +342,13 @@ def rule_split_points(ctx, m):
                             why = (f'the inserted antimeridian point\'s value is `{shown[:90]}`, not a copy of the crossing segment\'s '
                                    f'starting element {base}[{k}]: the pieces of that segment on this side of the antimeridian are '
                                    'reported with the altitude / time cell (state value) of a different point than the segment\'s start')
+                    if not ok and part == 'first' and role != 'lats':
+                        # the inserted point ends the first part: it starts no segment, and the share computation drops the last
+                        # point of altitude / time / state (first clause of this rule), so this value is never read
+                        ctx.ob('C05-R1', sp, f'{tag}: inserted point takes {role}[{k}]', True,
+                               f'`{shown[:60]}` - the end point of the first part starts no segment: its {role} value is not read',
+                               line=getattr(elems[0][1], 'lineno', r.lineno), nontrivial=False)
+                        continue
                     ctx.ob('C05-R1', sp, f'{tag}: inserted point takes {role}[{k}]', ok, why, line=getattr(elems[0][1], 'lineno', r.lineno))
         ctx.floor(f'C05-R1/{part}', n, 4, f'inserted-point values in the {part} split (latitude, altitude, time, state)')
 
@@ -663,11 +675,16 @@ def rule_guards(ctx, m):
                     continue
             elif not (nm in ('np.where', 'numpy.where') and len(c.args) == 3 and any(
                     isinstance(y, ast.BinOp) and isinstance(y.op, ast.Div) or
-                    (isinstance(y, ast.Call) and call_name(y) in ('np.divide', 'numpy.divide')) for y in ast.walk(c.args[1]))):
+                    (isinstance(y, ast.Call) and call_name(y) in ('np.divide', 'numpy.divide')) for a in c.args[1:] for y in ast.walk(a))):
                 continue
             cc = canon(V.close(fi, c, stmt_of(c)))
             b = pm_any(['np.divide(N_, D_, out=O_, where=W_)', 'np.divide(N_, D_, where=W_)', 'np.true_divide(N_, D_, out=O_, where=W_)',
                         'np.where(W_, N_ / D_, O_)', 'np.where(W_, np.divide(N_, D_), O_)'], cc)
+            if b is None:
+                # the quotient in the other arm: the division counts where the mask is false
+                b = pm_any(['np.where(NW_, O_, N_ / D_)', 'np.where(NW_, O_, np.divide(N_, D_))'], cc)
+                if b is not None:
+                    b['W_'] = canon(ast.UnaryOp(op=ast.Invert(), operand=b['NW_']))
             if b is None:
                 if nm.endswith('where'):
                     continue
@@ -678,7 +695,7 @@ def rule_guards(ctx, m):
             nonneg = mentions(b['D_'], lambda x: isinstance(x, ast.Call) and call_name(x) == DIST_FN) and \
                 pm_any([f'{DIST_FN}(A_, B_, C_, D_)', f'np.repeat({DIST_FN}(A_, B_, C_, D_), R_)'], b['D_']) is not None
             pend.put('C05-R7', fi, f'np.divide(…, {show(b["D_"], 40)}, where={show(b["W_"], 50)})',
-                     guard_verdict(b['W_'], b['D_'], b['N_'], nonneg=nonneg), line=c.lineno)
+                     guard_verdict(b['W_'], b['D_'], b['N_'], nonneg=nonneg, O=b.get('O_')), line=c.lineno)
     ctx.floor('C05-R7', ndiv, 1, 'guarded divisions in grid.py')
     ctx.floor('C05-R7/line', nline, 1, 'guarded division in the line parameters of the segments')
     pend.flush()
